@@ -196,8 +196,8 @@ def _edep_nodes_case(el_name, iso):
             else:
                 for (xa, fa), (xb, fb) in zip(pts[:-1], pts[1:]):
                     if lam > xa and lam < xb:
-                        t = (lam - xa) / (xb - xa)
-                        E.eq('on_chord', b, fa + (fb - fa) * t)
+                        from .c03 import _chord
+                        E.eq('on_chord', b, _chord(E, lam, xa, xb, fa, fb))
                         break
     return h
 
